@@ -40,10 +40,23 @@
  * that belong to no register are nobody's value: after a typed set, a bit
  * operation and sanitise only register words are compared.  A table that
  * register_init refuses ends as a trivial case (C04's sentence).  So does a
- * one-fault environment operation after which the table answers UNINITIALISED
- * (latched-after-fault: no statement mentions driver I/O errors; successor not
- * explored).  Part 2 on a corrupted area that is not flagged readable demands
- * only what the unwritable branch demands (sanitise-unspecified).
+ * one-fault environment operation after which the table is wholly or partly out
+ * of service (any non-success answer to a zero-length block read or to a
+ * full-extent block read of one of its areas, faults disarmed:
+ * latched-after-fault: no statement mentions driver I/O errors; successor not
+ * explored).  Part 2 on a table with a register in an area that is not flagged
+ * readable (sanitise-unspecified, as in part 1): no return code is demanded;
+ * registers in readable and writable areas are still judged on storage, marks
+ * and invariant, the others only on "a valid value is kept".
+ *
+ * State: the key is (storage image, image of the RegisterTable object, of the
+ * area array and of the entry array, touched marks cleared).  tab_from_key
+ * restores all of it, so nothing a transition leaves in those objects (e.g.
+ * after an injected fault) leaks into a transition whose path does not contain
+ * it; hidden residue is a state of its own, reached by its own path.  A table
+ * whose object images never repeat (change counters ...) would never reach a
+ * fixpoint: the search of a table stops at once, with a recorded cap, when the
+ * state set exceeds 2^(areas + 1) x the number of distinct storage images + 64.
  */
 #include "mc.h"
 #include "regtab.h"
@@ -54,6 +67,10 @@
 static const int QUICK_IDS[] = { 0, 1, 2, 3, 4, 5, 6, 7, 8, 12, 13, 14, 15, 16, 17, 20, 21, 22, 23, 24, 25, 26, 40, 41 };
 static const int THOROUGH_IDS[] = { 0, 1, 2, 3, 4, 5, 6, 7, 8, 9, 10, 11, 12, 13, 14, 15, 16, 17, 20, 21, 22, 23, 24, 25, 26, 40, 41, 37, 36, 34, 33, 35, 38 };
 #define CORRUPTION_BASE 64
+/* table-object variants per storage image tolerated before a search is given up:
+ * room for one bit of bookkeeping per area and one for the table (a latch, a
+ * dirty bit, "has seen an I/O error"): 2^(areas + 1) */
+#define STATE_FACTOR ((int64_t)2 << spec.na)
 
 static struct tab tb;
 static struct tspec spec;
@@ -62,7 +79,6 @@ static bool g_has_fail;
 static bool g_top; /* the table's last word is 0xffffffff */
 static bool g_sanitise_unspec; /* what sanitise does to this table is not fixed by the statement (always-fail registers; registers in write-only areas) */
 static unsigned g_corrupt_areas; /* mask of the areas part 2 corrupts */
-static uint16_t g_init_flags;
 static int nwords; /* total words of all areas */
 static bool g_regword[RT_MAXW]; /* snapshot layout: the word belongs to a register */
 static int g_word_reg[RT_MAXW]; /* snapshot layout: the register the word belongs to, -1 none */
@@ -395,15 +411,40 @@ masks(const struct rspec *r, uint64_t out[4])
  * pattern before every operation instead (all clear; all set before sanitise). */
 struct key {
     RegisterAtom w[RT_MAXW];
-    uint16_t flags; /* RegisterTable.flags: public state of the table object that operations may change */
+    /* whole-object images (zeroed beyond na + 1 / nr + 1 elements): whatever an
+     * operation leaves in the table object, the area descriptors or the entries
+     * is part of the state.  The images hold pointers (same objects throughout
+     * one process; keys are only compared, never printed). */
+    RegisterTable t;
+    RegisterArea areas[RT_MAXA + 1];
+    RegisterEntry entries[RT_MAXR + 1];
 };
+
+/* images of the table object right after setup_table(): part 2 starts every
+ * corrupted image from them */
+static RegisterTable obj_t;
+static RegisterArea obj_areas[RT_MAXA + 1];
+static RegisterEntry obj_entries[RT_MAXR + 1];
+
+static void
+obj_save(void)
+{
+    memset(obj_areas, 0, sizeof obj_areas);
+    memset(obj_entries, 0, sizeof obj_entries);
+    obj_t = tb.t;
+    memcpy(obj_areas, tb.areas, (size_t)(spec.na + 1) * sizeof(RegisterArea));
+    memcpy(obj_entries, tb.entries, (size_t)(spec.nr + 1) * sizeof(RegisterEntry));
+}
 
 static size_t
 key_from_tab(struct key *k)
 {
     memset(k, 0, sizeof *k);
+    touched_restore(&tb, 0); /* marks are not part of the state (see above) */
     flat_snapshot(&tb, k->w);
-    k->flags = tb.t.flags;
+    memcpy(&k->t, &tb.t, sizeof k->t);
+    memcpy(k->areas, tb.areas, (size_t)(spec.na + 1) * sizeof(RegisterArea));
+    memcpy(k->entries, tb.entries, (size_t)(spec.nr + 1) * sizeof(RegisterEntry));
     return sizeof *k;
 }
 
@@ -411,8 +452,23 @@ static void
 tab_from_key(const struct key *k)
 {
     flat_restore(&tb, k->w);
-    tb.t.flags = k->flags;
+    memcpy(&tb.t, &k->t, sizeof tb.t);
+    memcpy(tb.areas, k->areas, (size_t)(spec.na + 1) * sizeof(RegisterArea));
+    memcpy(tb.entries, k->entries, (size_t)(spec.nr + 1) * sizeof(RegisterEntry));
+    tb.cb_fail_read_at = tb.cb_fail_write_at = -1;
+    tb.cb_oob = 0;
     touched_restore(&tb, 0);
+}
+
+/* key of a storage image on the post-initialisation object images */
+static void
+key_from_words(struct key *k, const RegisterAtom *w)
+{
+    memset(k, 0, sizeof *k);
+    memcpy(k->w, w, sizeof k->w);
+    k->t = obj_t;
+    memcpy(k->areas, obj_areas, sizeof k->areas);
+    memcpy(k->entries, obj_entries, sizeof k->entries);
 }
 
 /* does every constrained register decode and satisfy its constraint? returns
@@ -802,16 +858,16 @@ do_op(const struct op *o, bool *ok)
         outcome = hit ? "fault-injected" : "fault-not-reached";
         flat_snapshot(&tb, expect); /* nothing demanded of the storage */
         if (hit && tab_out_of_service(&tb)) {
-            /* the table answers UNINITIALISED after the I/O error (fail-safe
-             * latch).  No statement mentions driver I/O errors and C05 starts
-             * "from a successfully initialised table": the successor is not a
-             * state of the statement -- trivial case, not explored.  The table
-             * object is brought back into service for the transitions that
-             * follow (tab_from_key puts the flag word back as well). */
-            mc_log("the table answers UNINITIALISED after the injected I/O error: out of service, successor not explored");
+            /* the table -- or one of its areas -- refuses a zero-length or a
+             * full-extent block read after the I/O error (fail-safe latch,
+             * whatever code it answers with).  No statement mentions driver
+             * I/O errors and C05 starts "from a successfully initialised
+             * table": the successor is not a state of the statement -- trivial
+             * case, not explored.  tab_from_key puts the whole table object
+             * (table, areas, entries) back before the next transition. */
+            mc_log("the table refuses a zero-length or a full-extent block read of its areas after the injected I/O error: out of service, successor not explored");
             g_trivial = true;
             *ok = false;
-            (void)register_init(&tb.t);
             return "latched-after-fault";
         }
         if (invariant_violation() >= 0)
@@ -999,8 +1055,7 @@ corruption(int ti, bool thorough)
             nstates *= nC[r];
     }
     for (int64_t sid = 0; sid < nstates; ++sid) {
-        struct key k;
-        memset(&k, 0, sizeof k);
+        static struct key k; /* static: the object images make a key large */
         {
             /* start from the initialised image, then place the contents */
             RegisterAtom img[RT_MAXW];
@@ -1014,8 +1069,7 @@ corruption(int ti, bool thorough)
                 }
                 set_reg_words(img, r, C[r][sel]);
             }
-            memcpy(k.w, img, sizeof k.w);
-            k.flags = g_init_flags;
+            key_from_words(&k, img);
         }
         /* one case per choice of two words and of the fault position; the rest enumerated inside */
         for (int c0 = 0; c0 < nalpha[f0]; ++c0)
@@ -1039,21 +1093,22 @@ corruption(int ti, bool thorough)
                     sel[f1] = c1;
                     bool ok = true;
                     long nreset = 0, nkept = 0, nhit = 0, nunwritable = 0;
-                    /* a corrupted area that is not flagged readable: whether its
-                     * content is content sanitise has to look at is left open
-                     * (assumptions; part 1 does not judge sanitise on such tables
-                     * either).  Judged like the unwritable branch, own class. */
-                    bool unreadable = false;
-                    for (int i = 0; i < spec.na; ++i)
-                        if ((g_corrupt_areas & (1u << i)) && !flat_readable(&spec.a[i]))
-                            unreadable = true;
+                    /* a table with a register in an area that is not flagged
+                     * readable: whether that content is content sanitise has to
+                     * look at, and what sanitise answers when it does not, is
+                     * left open (assumptions; part 1 does not judge sanitise on
+                     * such tables either) -- whichever area is corrupted.  No
+                     * return code is demanded; registers in readable and
+                     * writable areas are judged in full.  Own class. */
+                    const bool unreadable = g_sanitise_unspec; /* (tables with always-fail registers do not get here) */
                     for (;;) {
                         /* build corrupted image */
-                        struct key c = k;
+                        static struct key c;
+                        c = k;
                         for (int w = 0; w < wtotal; ++w)
                             if (sel[w])
                                 c.w[w] = alpha[w][sel[w]];
-                        tab_from_key(&c);
+                        tab_from_key(&c); /* storage and the post-initialisation images of table, areas and entries */
                         touched_restore(&tb, ((1u << spec.nr) - 1) & 0x5u); /* some marks set */
                         /* reference */
                         RegisterAtom expect[RT_MAXW];
@@ -1081,10 +1136,9 @@ corruption(int ti, bool thorough)
                         const bool hit = (fread >= 0 && tb.cb_reads > fread) || (fwrite >= 0 && tb.cb_writes > fwrite);
                         tb.cb_fail_read_at = tb.cb_fail_write_at = -1;
                         mc_trans(1);
-                        /* a table taken out of service by the I/O error is brought
-                         * back for the next image (tab_from_key restores storage
-                         * and flag word); this sanitise run is judged as before */
-                        const bool revive = hit && tab_out_of_service(&tb);
+                        /* (a table taken out of service by the I/O error is back for
+                         * the next image: tab_from_key restores storage and the
+                         * whole table object; this sanitise run is judged as before) */
                         RegisterAtom after[RT_MAXW];
                         const size_t total = flat_snapshot(&tb, after);
                         if (mc.verbose) {
@@ -1097,7 +1151,39 @@ corruption(int ti, bool thorough)
                         if (tb.cb_oob) {
                             mc_fail("C05/area-bounds", "sanitise: area callback asked for words outside its area");
                             ok = false;
-                        } else if (hit || unwritable || unreadable) {
+                        } else if (unreadable && !hit && !unwritable) {
+                            /* sanitise-unspecified table, nothing in the way of a
+                             * repair: every register in an area that is flagged
+                             * readable and that sanitise can write is reset if it
+                             * was invalid and keeps its value otherwise, and its
+                             * mark is cleared; the other registers (content
+                             * sanitise need not look at) keep a valid value.  The
+                             * return code is open (a sanitise that skips the
+                             * unreadable registers may report them), and so is
+                             * whether sanitise goes on behind the first register
+                             * it does not look at: judged in full are the
+                             * registers in front of that one. */
+                            bool behind = false;
+                            for (int r = 0; r < spec.nr && ok; ++r) {
+                                const struct aspec *ra = &spec.a[flat_area_of(&spec, spec.r[r].addr)];
+                                behind |= !flat_readable(ra);
+                                const bool full = !behind && area_resettable(ra) && flat_readable(ra);
+                                if (!full && !was_sane[r])
+                                    continue;
+                                for (int w = 0; w < wtotal && ok; ++w)
+                                    if (g_word_reg[w] == r && after[w] != expect[w]) {
+                                        if (was_sane[r])
+                                            mc_fail("C05/sanitise-keeps-valid", "register %d held a valid value before sanitise and a different one after", r);
+                                        else
+                                            mc_fail("C05/sanitise-resets-exactly-the-invalid", "register %d (readable and writable area) held an invalid value and does not hold its default after sanitise", r);
+                                        ok = false;
+                                    }
+                                if (ok && full && register_was_touched(&tb.t, (RegisterHandle)r)) {
+                                    mc_fail("C05/sanitise-clears-touched", "register %d (readable and writable area) is still marked touched after sanitise", r);
+                                    ok = false;
+                                }
+                            }
+                        } else if (hit || unwritable) {
                             /* a reset could not be carried out (I/O error, no write
                              * callback) or the statement leaves open whether it is
                              * (area flagged read-only).  The statement fixes no return
@@ -1146,8 +1232,6 @@ corruption(int ti, bool thorough)
                             mc_fail("C05/invariant", "invariant does not hold after sanitise");
                             ok = false;
                         }
-                        if (revive)
-                            (void)register_init(&tb.t);
                         if (!ok)
                             break;
                         /* next combination of the other words */
@@ -1237,7 +1321,8 @@ setup_table(int ti)
     }
     memset(g_init_image, 0, sizeof g_init_image);
     flat_snapshot(&tb, g_init_image);
-    g_init_flags = tb.t.flags;
+    touched_restore(&tb, 0);
+    obj_save();
     make_ops();
     return true;
 }
@@ -1260,13 +1345,21 @@ run_table(int ti, int part)
         mc_fail("C05/invariant", "invariant does not hold after initialisation");
     mc_end(true, "init");
 
-    struct mc_set set;
+    /* imgs: the distinct storage images among the states.  A successor is only
+     * stored after its storage agreed with the model, so imgs is bounded by the
+     * model's reachable set; set.n / imgs.n is the number of table-object
+     * variants per storage image (1 on a library that keeps nothing but marks
+     * in its objects).  Objects that never repeat (change counters,
+     * statistics) give no fixpoint: stop at once with a cap. */
+    struct mc_set set, imgs;
     mc_set_init(&set);
-    struct key k0;
+    mc_set_init(&imgs);
+    static struct key k0, k, nk;
+    bool capped = false;
     key_from_tab(&k0);
     mc_set_add(&set, &k0, sizeof k0, -1, -1, NULL);
-    for (int64_t cur = 0; cur < (int64_t)set.n; ++cur) {
-        struct key k;
+    mc_set_add(&imgs, k0.w, sizeof k0.w, -1, -1, NULL);
+    for (int64_t cur = 0; cur < (int64_t)set.n && !capped; ++cur) {
         memcpy(&k, mc_set_key(&set, cur), sizeof k);
         char path[160] = "";
         for (int oi = 0; oi < nops; ++oi) {
@@ -1278,11 +1371,17 @@ run_table(int ti, int part)
             bool ok;
             const char *outcome = do_op(&ops[oi], &ok);
             if (ok) {
-                struct key nk;
                 key_from_tab(&nk);
                 mc_set_add(&set, &nk, sizeof nk, cur, oi, NULL);
+                mc_set_add(&imgs, nk.w, sizeof nk.w, -1, -1, NULL);
             }
             mc_end(!g_trivial, g_top ? top_class(outcome) : outcome);
+            if ((int64_t)set.n > STATE_FACTOR * (int64_t)imgs.n + 64) {
+                mc_cap("T%d: %lld states over %lld distinct storage images -- the image of the table object (RegisterTable, areas, entries) does not repeat (it carries counters?); search of this table stopped, no fixpoint",
+                       ti + 1, (long long)set.n, (long long)imgs.n);
+                capped = true;
+                break;
+            }
         }
         if (set.n > 2000000) {
             mc_cap("state cap 2000000 hit on T%d", ti + 1);
@@ -1291,6 +1390,7 @@ run_table(int ti, int part)
     }
     mc.states += (int64_t)set.n;
     mc_set_free(&set);
+    mc_set_free(&imgs);
     tab_free(&tb);
 }
 
@@ -1320,8 +1420,8 @@ main(int argc, char **argv)
         run_table(ids[i], i);
     for (int i = 0; i < ntables; ++i)
         run_corruption(ids[i], mc_thorough());
-    char bound[1500];
-    snprintf(bound, sizeof bound, "%d tables (%s; two tables at the top of the address space -- last word 0xffffffff, one with a read-only last area -- with every block-write window from one below the first area up to 0xffffffff, address+length <= 2^32, and the corruption part); fixpoint over typed set / bit set / bit clear / block write (every window) / sanitise with boundary operands and one-fault environment operations (sanitise, typed set, block write with the k-th read or write callback failing, k < max(3, registers)) on callback-backed tables; corruption: every image over %s per word of the corrupted areas from every combination of valid contents of %s, sanitise once without fault and (callback-backed tables%s) once per single read / write fault position",
+    char bound[1700];
+    snprintf(bound, sizeof bound, "%d tables (%s; two tables at the top of the address space -- last word 0xffffffff, one with a read-only last area -- with every block-write window from one below the first area up to 0xffffffff, address+length <= 2^32, and the corruption part); fixpoint (state = storage + object images of table, areas, entries; per-table state cap 2^(areas+1) x distinct storage images + 64) over typed set / bit set / bit clear / block write (every window) / sanitise with boundary operands and one-fault environment operations (sanitise, typed set, block write with the k-th read or write callback failing, k < max(3, registers)) on callback-backed tables; corruption: every image over %s per word of the corrupted areas from every combination of valid contents of %s, sanitise once without fault and (callback-backed tables%s) once per single read / write fault position",
              ntables,
              mc_thorough() ? "the quick ones + three with 3-4 registers over 7-10 words + six three-area tables with two registers per populated area" : "nine small ones, write-only areas, SKIP_DEFAULTS areas, an area without write callback, unconstrained f64, three adjacent areas with every subset entry-less",
              mc_thorough() ? "{keep,0000,ffff,7f80,0001,one-past-bound}" : "{keep,0000,ffff,one-past-bound}",
